@@ -221,6 +221,16 @@ def run(ctx):
     for k in range(0, 3000, hstep):
         for kind in ("eof", "corrupt"):
             scen.append(dict(id="hello@%d/%s" % (k, kind), mode="client", ops=BASE["v3serial"][:3], fault=dict(kind=kind, at=k, hello=True)))
+    # single-bit flips inside the hello: the three major-type bits turn a map key or a value into an item of another
+    # CBOR type while the message stays well-formed (a step ID that is a byte string, a version that is a negative
+    # integer ...) - ReadSchema has to refuse such a schema with an error.  Every offset of the envelope and the first
+    # step's head, then a stride (thorough: every offset)
+    hl = 3000
+    offs = list(range(0, 160)) + list(range(160, hl, 1 if thorough else 11))
+    for k in offs:
+        for mk in ((0x20, 0x40, 0x80) if (thorough or k < 160) else ((0x20, 0x40, 0x80)[(k + ctx.seed) % 3],)):
+            scen.append(dict(id="hello@%d/bit%02x" % (k, mk), mode="client", ops=BASE["v3serial"][:3],
+                             fault=dict(kind="bitflip", at=k, hello=True, mask=mk)))
     res = A.run_driver(ctx, scen, label="c08")
     sessions = []
     for i, (sc, rr) in enumerate(zip(scen, res)):
